@@ -16,7 +16,7 @@ BOUNDS = {"quick": "2 peers, 3 concurrent requests (2 on one connection), every 
 OUTSIDE = ["4 concurrent requests per peer", "two faults"]
 
 PERMS = [(0, 1, 2), (0, 2, 1), (1, 0, 2), (1, 2, 0), (2, 0, 1), (2, 1, 0)]
-FAULTS = ["none", "gone_1", "dpr_1", "reconnect_1", "gone_2", "dpr_reconnect_1", "dwa_timeout_reconnect_1"]
+FAULTS = ["none", "gone_1", "dpr_1", "reconnect_1", "gone_2", "dpr_reconnect_1", "dwa_timeout_reconnect_1", "reconnect_newreq_1"]
 
 
 def scenario(i1a: int, i1b: int, i2a: int, perm: int, fault: int, point: int, dup: int) -> bool:
@@ -48,12 +48,16 @@ def scenario(i1a: int, i1b: int, i2a: int, perm: int, fault: int, point: int, du
             drain(cx)
             return cx
         c1 = connect1()
-        c2, s2 = b.make_ready(b.peers[1], "10.0.1.2")
+        if P.get("second_conn"):
+            # the second connection is a second established connection of the SAME peer
+            c2, s2 = b.make_ready(b.peers[0], "10.0.1.1")
+        else:
+            c2, s2 = b.make_ready(b.peers[1], "10.0.1.2")
         conns = [c1, c2]
         # requests: 0 -> peer1/h1a, 1 -> peer2/h2a, 2 -> peer1/h1b
         plan = [(0, ids[0]), (1, ids[2]), (0, ids[1])]
         for k, (ci, hbh) in enumerate(plan):
-            b.inject(conns[ci], B.ccr(B.PEER_HOSTS[ci], hbh, 7000 + k, session="s;%d" % k))
+            b.inject(conns[ci], B.ccr(B.PEER_HOSTS[0 if P.get("second_conn") else ci], hbh, 7000 + k, session="s;%d" % k))
         for c in conns:
             drain(c)
         reqs = list(app.requests)
@@ -74,6 +78,17 @@ def scenario(i1a: int, i1b: int, i2a: int, perm: int, fault: int, point: int, du
             elif f == "reconnect_1":
                 n.close_connection_socket(c1, B.DISCONNECT_REASON_GONE_AWAY)
                 conns.append(connect1())
+            elif f == "reconnect_newreq_1":
+                # the requester comes back and sends a NEW request that reuses the hop-by-hop id of its first one
+                n.close_connection_socket(c1, B.DISCONNECT_REASON_GONE_AWAY)
+                c1n = connect1()
+                conns.append(c1n)
+                b.inject(c1n, B.ccr(B.PEER_HOSTS[0], ids[0], 7003, session="s;3"))
+                drain(c1n)
+                reqs.append(app.requests[-1])
+                arrived_on.append(c1n)
+                plan.append((len(conns) - 1, ids[0]))
+                seq.append(3)
             elif f == "dpr_reconnect_1":
                 # the requester disconnects cleanly (DPR/DPA, then closes) and comes back
                 b.inject(c1, B.dpr(B.PEER_HOSTS[0], 4242, 4242))
@@ -90,7 +105,10 @@ def scenario(i1a: int, i1b: int, i2a: int, perm: int, fault: int, point: int, du
         seq = list(order)
         if dp:
             seq.insert(dp, order[0])              # the first answer is submitted a second time, right away or one later
-        for step, k in enumerate(seq):
+        step = -1
+        while step + 1 < len(seq):
+            step += 1
+            k = seq[step]
             if step == pt and f != "none":
                 strike()
             ans = app.generate_answer(reqs[k], result_code=2001)
@@ -133,11 +151,15 @@ def repro_equal_hbh():
 def specs(tier, seed, carve):
     out = []
     q = tier == "quick"
+    for fi_ in (0, 2):
+        for pi in (0, 4):
+            out.append(dict(id="scenario/second_conn/%s/perm%d" % (FAULTS[fi_], pi), fn="scenario", params={"fault": fi_, "perm": pi, "pool": 3, "second_conn": True}, timeout=900,
+                            bound="ONE peer with two established connections, requests on both; fault %s; answer order %r" % (FAULTS[fi_], PERMS[pi])))
     for pi in (0, 3):
         out.append(dict(id="scenario/outbound_reconnect_1/perm%d" % pi, fn="scenario", params={"fault": FAULTS.index("reconnect_1"), "perm": pi, "pool": 3, "outbound": True}, timeout=900,
                         bound="requester connection dialled by the node, peer identity in another letter case; requester lost and re-dialled at every point; answer order %r" % (PERMS[pi],)))
     for fi, fn_ in enumerate(FAULTS):
-        for pi in range(6):
+        for pi in ((0, 3, 5) if q else range(6)):
             out.append(dict(id="scenario/%s/perm%d" % (fn_, pi), fn="scenario", params={"fault": fi, "perm": pi, "pool": 3 if q else 5}, timeout=900 if q else 3000,
                             bound="fault %s at every point; every id assignment from a %d-element pool%s; answer order %r; duplicate submission at 2 positions" % (
                                 fn_, 3 if q else 5, " (equal ids across peers excluded: known finding)" if "c09_equal_hbh_across_peers" in carve else "", PERMS[pi])))
